@@ -686,7 +686,7 @@ class Exec:
             hv = set()
             for k in e.keys:
                 if k is not None:
-                    hv |= self.eval(k)
+                    self.eval(k)
             for x in e.values:
                 hv |= self.eval(x)
             return self.fresh(e, frozenset(hv))
@@ -698,7 +698,8 @@ class Exec:
                 for c in g.ifs:
                     self.eval(c)
             if isinstance(e, ast.DictComp):
-                hv = self.eval(e.key) | self.eval(e.value)
+                self.eval(e.key)  # keys are hashable values: evaluated, not held (as for `d[k] = v`)
+                hv = self.eval(e.value)
             else:
                 hv = self.eval(e.elt)
             self.env = saved
